@@ -499,8 +499,19 @@ Oracle: the view equals the plain tree `plain` (when given) / duplicateKey when 
 def runNorm (c : Json) : R (Json × Option Json × Option String) := do
   let o ← getOpts c "opts"
   let d ← parseGoData ((optField c "from").getD .null)
-  let r1 := newFrom o d
-  let r2 := newFrom o (reverseMaps d)
+  -- "base": the source is merged into an existing config (created with "bopts") instead of into an empty one
+  let base? ← match optField c "base" with
+    | some .null | none => pure none
+    | some bj => do
+      let b ← parseGoData bj
+      let bo ← getOpts c "bopts"
+      pure (some (newFrom bo b))
+  let mk (dd : GoData) : Outcome Val := match base? with
+    | none => newFrom o dd
+    | some (.ok b) => cfgMerge o b dd
+    | some r => r
+  let r1 := mk d
+  let r2 := mk (reverseMaps d)
   let dv (v : Val) : Json := match viewP v with
     | .ok vw => Json.mkObj [("ok", Json.mkObj [
         ("dict", match dropNil (.map vw.dict) with | .map m => .mkObj (m.map (fun (k, d) => (k, dataJson d))) | _ => .mkObj []),
@@ -1000,7 +1011,7 @@ def runFull (std : Stdlib) (c : Json) : R (Json × Option Json × Option String)
     let c' := c'.setObjVal! "impl" ((optField impl "twin").getD .null)
     let (m, o, _) ← runUnpack std c'
     pure (Json.mkObj [("twin", m)], o, none)
-  | "load" | "mergerep" | "oddtarget" | "unpackers" => pure (Json.mkObj [("unmodelled", .bool true)], none, none)
+  | "load" | "mergerep" | "oddtarget" | "unpackers" | "ifaceheld" => pure (Json.mkObj [("unmodelled", .bool true)], none, none)
   | "forest" => pure (runForest c, none, none)
   | "concurrent" =>
     -- reads are functions of the tree: any number of readers get the solo results and leave the tree as it is
